@@ -219,6 +219,10 @@ void pbt_run(const Case& cs, Ctx& ctx) {
       if (state[i] == 3 && ctx.excluded("C06-replace-unterminated")) continue;
       if (i == j || i == k3) ctx.label("self_argument");
       std::string needle = m[j], rep = m[k3], src = m[i], out;
+      // a replacement by a long string multiplies the length: keep the case (and the model's own strings) within the memory budget
+      { size_t cnt = 0; for (size_t f = src.find(needle); f != std::string::npos; f = src.find(needle, f + needle.size())) ++cnt;
+        if (ctx.verbose) fprintf(stderr, "replace: subject %zu bytes, needle %zu, replacement %zu, %zu occurrences\n", src.size(), needle.size(), rep.size(), cnt);
+        if (src.size() + cnt * rep.size() > 200000) { ctx.count("skipped_big"); continue; } }
       size_t pos = 0; bool any = false;
       for (;;) { size_t f = src.find(needle, pos); if (f == std::string::npos) { out += src.substr(pos); break; } any = true; out += src.substr(pos, f - pos); out += rep; pos = f + needle.size(); }
       int stI = state[i];
@@ -314,6 +318,7 @@ void pbt_run(const Case& cs, Ctx& ctx) {
       List<String> toks; std::string mj; char sep = ",;/ "[a3 % 4];
       int n = (int)(a2 < 0 ? 0 : a2 % 5);
       for (int q = 0; q < n; ++q) { int v = (int)((a3 + q) % NV); toks.append(*s[v]); if (q) mj += sep; mj += m[v]; if (v == i) ctx.label("self_argument"); }
+      if (mj.size() > 200000) { ctx.count("skipped_big"); continue; }
       if (shared(i)) ctx.label("mutate_while_shared");
       S.join(toks, sep); m[i] = mj; fresh(i);
       if (mj.empty()) { state[i] = n ? 1 : 0; }
